@@ -669,7 +669,7 @@ class Harness:
             w('  { uint64_t v = %s; R_hostg[%d] = v; H_g%d = %s_of_bits(v); }' % (nd, gi, gi, TYPE_C[t]))
         if self.mem_imported:
             mn, mx = self.mem[0], self.mem[1]
-            w('  H_mem.data = (U8*)malloc(%d); V_ASSUME(H_mem.data != 0); H_mem.pages = %d; H_mem.size = %d; H_mem.maxPages = %d; H_mem.shared = %s;' %
+            w('  H_mem.data = (U8*)calloc(%d, 1); V_ASSUME(H_mem.data != 0); H_mem.pages = %d; H_mem.size = %d; H_mem.maxPages = %d; H_mem.shared = %s;' %
               (mn * self.page, mn, mn * self.page, mx if mx is not None else 65535, 'true' if self.mem_shared else 'false'))
             w('  R_hostmem.data = R_memdatah; R_hostmem.pages = %d; R_hostmem.has_max = %d; R_hostmem.maxpages = %d;' % (mn, 1 if mx is not None else 0, mx or 0))
             w('  { uint32_t hb = nd32(); V_ASSUME(hb <= %d - 8); for (k = 0; k < 8; k++) { uint8_t v = nd8(); H_mem.data[hb + k] = v; R_hostmem.data[hb + k] = v; }' % (mn * self.page))
@@ -685,16 +685,14 @@ class Harness:
         for inst in range(self.n_inst):
             if self.child_of is not None and inst == 1:
                 continue
-            w('  R_instantiate(&RS[%d], %d);' % (inst, inst))
-        w('  V_ASSUME(!R_stop);')
-        w('  V_ASSUME(!R_trap);')  # start function trapping: out of family
-        w('  phase_real = 1;')
-        for inst in range(self.n_inst):
-            if self.child_of is not None and inst == 1:
-                continue
+            w('  phase_real = 0; R_instantiate(&RS[%d], %d);' % (inst, inst))
+            w('  V_ASSUME(!R_stop);')
+            w('  V_ASSUME(!R_trap);')  # start function trapping: out of family
+            w('  phase_real = 1;')
             w('  cur_inst = RI[%d]; cur_id = %d; %sInstantiate(&INST[%d], resolve);' % (inst, inst, mod, inst))
             w('  V_ASSERT(I_ncalls == R_ncalls, "host calls during instantiation equal reference");')
-            w('  compare_state(%d, "after instantiate");' % inst)
+            for k2 in range(inst + 1):
+                w('  compare_state(%d, "after instantiate");' % k2)
         if self.child_of is not None:
             w('  phase_real = 0; R_instantiate(&RS[1], 1); V_ASSUME(!R_stop && !R_trap); phase_real = 1;')
             w('  cur_id = 1; RI[1] = (%sInstance*)INST[0].common.newChild((struct wasmModuleInstance*)&INST[0]); cur_inst = RI[1];' % mod)
